@@ -333,7 +333,7 @@ func (g registry) ModulePackageVersions(ctx context.Context, pkgAddr regaddr.Mod
 			continue
 		}
 		info := sourcebundle.ModulePackageInfo{Version: v}
-		if rv.DepReason != "" {
+		if rv.DepReason != "" || rv.DepLink != "" {
 			info.Deprecation = &sourcebundle.ModulePackageVersionDeprecation{Reason: rv.DepReason, Link: rv.DepLink}
 		}
 		resp.Versions = append(resp.Versions, info)
